@@ -10,6 +10,11 @@ pub fn run(name: &str) {
         match name {
             "overwrite_rowid" => overwrite_rowid().await,
             "bool_null_index" => bool_null_index().await,
+            "merge_null" => merge_null().await,
+            "del_null" => del_null().await,
+            "c16_limit" => c16_limit_probe().await,
+            "merge_partial" => merge_partial().await,
+            "limit_stable" => { limit_stable(true).await; limit_stable(false).await },
             "defer_remap" => { defer_remap(true).await; defer_remap(false).await },
             _ => eprintln!("unknown probe"),
         }
@@ -86,5 +91,105 @@ async fn defer_remap(stable: bool) {
             res.push(b.iter().map(|b| b.num_rows()).sum::<usize>());
         }
         println!("{f:20} indexed={} unindexed={}", res[0], res[1]);
+    }
+}
+
+async fn merge_null() {
+    for partial in [None, Some(vec![1u8])] {
+        for matched in [0u8, 1, 2] {
+            for by_source in [0u8, 1] {
+                for use_index in [false] {
+                    let cfg = TableCfg { cols: vec![(2, true), (2, true)], stable_row_ids: false, storage: 1, v2_manifest: false, handler: 0 };
+                    let store = VStore::new();
+                    // target: c0 = 1 (seed 2 -> pool[1]), c0 = NULL
+                    let mut w = World::create(store, "t", &cfg, &[RowSeed(vec![2, 2, 2, 2, 2, 2]), RowSeed(vec![7, 2, 2, 2, 2, 2])], 100).await.unwrap();
+                    w.merge_null_keys = true;
+                    let mut obs = crate::engine::Obs::default();
+                    // source: NULL key row, an unmatched non-null key row (seed 4 -> 2), nothing matching
+                    let m = MergeSpec { key: 0, src: vec![(RowSeed(vec![7, 4, 4, 4, 4, 4]), None), (RowSeed(vec![4, 4, 4, 4, 4, 4]), None)], matched, insert_not_matched: true, by_source, by_source_pred: RawPred::Const(true), partial: partial.clone(), use_index };
+                    let r = w.apply(&Step { op: Op::Merge(m), stale: None }, &mut obs).await;
+                    let rows = scan_rows(&w.ds, &w.state().schema, false).await;
+                    println!("partial={partial:?} matched={matched} by_source={by_source}: result={} rows={:?}", match &r { Ok(_) => "ok".to_string(), Err(f) => format!("{}: {}", f.kind, &f.msg[..f.msg.len().min(150)]) }, rows.map(|r| r.iter().map(|x| (x.uid, x.vals[0].short())).collect::<Vec<_>>()));
+                }
+            }
+        }
+    }
+}
+
+async fn limit_stable(stable: bool) {
+    println!("--- stable={stable}");
+    let cfg = TableCfg { cols: vec![(2, false)], stable_row_ids: stable, storage: 1, v2_manifest: false, handler: 0 };
+    let store = VStore::new();
+    let seeds: Vec<RowSeed> = (0..3).map(|i| RowSeed(vec![(i * 2 + 1) as u16; 6])).collect();
+    let mut w = World::create(store, "t", &cfg, &seeds, 100).await.unwrap();
+    let mut obs = crate::engine::Obs::default();
+    let r = w.apply(&Step { op: Op::Update { pred: Some(RawPred::Cmp { col: 1, op: 0, lit: 0 }), sets: vec![(0, RawSet::Lit(5))] }, stale: None }, &mut obs).await;
+    println!("update: {:?}", r.is_ok());
+    for f in w.ds.manifest().fragments.iter() {
+        println!("frag {} phys {:?} del {:?} rowidmeta {}", f.id, f.physical_rows, f.deletion_file.as_ref().map(|d| d.num_deleted_rows), f.row_id_meta.is_some());
+    }
+    for l in 1..5i64 {
+        let mut sc = w.ds.scan();
+        sc.limit(Some(l), None).unwrap();
+        let b: Vec<RecordBatch> = sc.try_into_stream().await.unwrap().try_collect().await.unwrap();
+        let n: usize = b.iter().map(|b| b.num_rows()).sum();
+        let mut sc = w.ds.scan();
+        sc.limit(Some(l), None).unwrap();
+        println!("limit {l}: {n} rows; plan: {}", sc.explain_plan(false).await.unwrap().replace('\n', " | "));
+    }
+}
+
+async fn merge_partial() {
+    for (partial, use_index, stable) in [(Some(vec![0u8]), false, false), (Some(vec![0u8, 2]), false, false), (None, false, false), (Some(vec![0u8]), true, false), (Some(vec![0u8]), false, true)] {
+        let cfg = TableCfg { cols: vec![(2, true), (2, false), (2, false)], stable_row_ids: stable, storage: 1, v2_manifest: false, handler: 0 };
+        let store = VStore::new();
+        let seeds: Vec<RowSeed> = [0u16, 1, 4].iter().map(|k| RowSeed(vec![*k; 6])).collect();
+        let mut w = World::create(store, "t", &cfg, &seeds, 3).await.unwrap();
+        let mut obs = crate::engine::Obs::default();
+        let m = MergeSpec { key: 1, src: vec![(RowSeed(vec![1, 0, 0, 0, 0, 0]), None)], matched: 0, insert_not_matched: false, by_source: 0, by_source_pred: RawPred::Const(true), partial: partial.clone(), use_index };
+        let r = w.apply(&Step { op: Op::Merge(m), stale: None }, &mut obs).await;
+        let rows = scan_rows(&w.ds, &w.state().schema, false).await;
+        println!("partial={partial:?} use_index={use_index} stable={stable} result={} rows={:?}", match &r { Ok(_) => "ok".to_string(), Err(f) => format!("{}: {}", f.kind, &f.msg[..f.msg.len().min(160)]) }, rows.map(|r| r.iter().map(|x| (x.uid, x.vals.iter().map(|v| v.short()).collect::<Vec<_>>())).collect::<Vec<_>>()));
+    }
+}
+
+async fn del_null() {
+    let cfg = TableCfg { cols: vec![(2, true), (2, false)], stable_row_ids: false, storage: 1, v2_manifest: false, handler: 0 };
+    for f in ["((NOT (c0 IN (0))) OR (c0 NOT IN (0))) OR (c0 = 1)", "(c0 <> 0) OR (c0 <> 0) OR (c0 = 1)", "(c0 <> 0) OR (c0 = 1)", "(c0 <> 0) OR (c0 <> 0)", "(c0 <> 0) OR (c0 <> 1)", "(c0 <> 0) OR (c0 <> 1) OR (c0 = 5)", "(c0 = 0) OR (c0 = 0) OR (c0 <> 1)", "(c0 < 0) OR (c0 < 0) OR (c0 >= 0)", "(c0 <> 0 OR c1 = 7) OR (c0 <> 0)"] {
+        let store = VStore::new();
+        let mut w = World::create(store, "t", &cfg, &[RowSeed(vec![35, 0, 0, 0, 0, 0])], 3).await.unwrap();
+        let n = w.ds.count_rows(Some(f.to_string())).await;
+        let mut sc = w.ds.scan();
+        sc.filter(f).unwrap();
+        let plan = sc.explain_plan(false).await.unwrap_or_default();
+        let r = w.ds.delete(f).await;
+        let left = w.ds.count_rows(None).await;
+        println!("{f:60} count_rows={n:?} delete={:?} rows left={left:?}\n    plan: {}", r.is_ok(), plan.replace('\n', " | "));
+    }
+}
+
+pub async fn c16_limit_probe() {
+    let cfg = TableCfg { cols: vec![(0, false), (0, false), (0, false)], stable_row_ids: false, storage: 1, v2_manifest: false, handler: 0 };
+    let store = VStore::new();
+    let mut w = World::create(store, "t", &cfg, &[], 3).await.unwrap();
+    let mut obs = crate::engine::Obs::default();
+    let _ = w.apply(&Step { op: Op::Append { rows: vec![RowSeed(vec![0, 13, 0, 0, 0, 0])], splits: vec![], max_rows_per_file: 3 }, stale: None }, &mut obs).await;
+    let rows: Vec<RowSeed> = [[0u16, 13, 0], [0, 13, 0], [0, 0, 0], [0, 13, 0], [0, 0, 0], [0, 13, 0], [0, 13, 14]].iter().map(|r| RowSeed(vec![r[0], r[1], r[2], 0, 0, 0])).collect();
+    let _ = w.apply(&Step { op: Op::Append { rows, splits: vec![], max_rows_per_file: 3 }, stale: None }, &mut obs).await;
+    let _ = w.apply(&Step { op: Op::CreateIndex { col: 40, kind: 0, replace: true }, stale: None }, &mut obs).await;
+    println!("indices: {:?}", w.state().indices);
+    println!("rows: {:?}", w.state().rows.iter().map(|r| (r.uid, r.vals.iter().map(|v| v.short()).collect::<Vec<_>>())).collect::<Vec<_>>());
+    let f = "(uid IS NULL) OR ((c1 >= 0) AND (c2 <= 0))";
+    for lim in [None, Some(7i64), Some(1), Some(20)] {
+        let mut sc = w.ds.scan();
+        sc.filter(f).unwrap();
+        sc.project(&["uid", "c2"]).unwrap();
+        if let Some(l) = lim { sc.limit(Some(l), None).unwrap(); }
+        let b: Vec<RecordBatch> = sc.try_into_stream().await.unwrap().try_collect().await.unwrap();
+        let mut sc2 = w.ds.scan();
+        sc2.filter(f).unwrap();
+        sc2.project(&["uid", "c2"]).unwrap();
+        if let Some(l) = lim { sc2.limit(Some(l), None).unwrap(); }
+        println!("limit {lim:?}: {} rows; plan {}", b.iter().map(|b| b.num_rows()).sum::<usize>(), sc2.explain_plan(false).await.unwrap().replace('\n', " | "));
     }
 }
